@@ -2,13 +2,13 @@
 
 use super::c05::{mutate, Mutation};
 use crate::common::*;
-use crate::engine::{bx, hash_of, GenPart, Property, Stats, Tier};
+use crate::engine::{bx, hash_of, EnumPart, GenPart, Property, Stats, Tier};
 use crate::oracle::refcodec::RefPacket;
 use crate::oracle::refcrc;
 use dvb_gse_rust::gse_decap::{DecapError, DecapMemoryError, DecapStatus, GseDecapMemory};
 use proptest::prelude::*;
 use serde::{Deserialize, Serialize};
-use serde_json::json;
+use serde_json::{json, Value};
 use std::collections::HashMap;
 
 #[derive(Clone, Debug, PartialEq, Eq, Hash, Serialize, Deserialize)]
@@ -382,6 +382,72 @@ fn check_huge(c: &super::c05::HugeCase, st: &mut Stats) -> Result<(), String> {
     Ok(())
 }
 
+// ---- every short history over a fixed alphabet --------------------------------------------------------
+
+const N_ALPHA: u64 = 24;
+
+fn enum_alphabet() -> Vec<Op> {
+    let a = Lab::Six(ALPHA6[0]);
+    let pk = |p: P| Op::Pkt { p, muts: vec![] };
+    vec![
+        Op::Provision(0),
+        Op::Provision(1),
+        Op::NewPdu,
+        Op::GiveBack,
+        Op::Reset,
+        pk(P::Complete { lab: a, len: 10, ext: 0 }),
+        pk(P::Complete { lab: Lab::ReUse, len: 10, ext: 0 }),
+        pk(P::Complete { lab: a, len: 10, ext: 3 }),
+        pk(P::Complete { lab: Lab::Six([0; 6]), len: 10, ext: 0 }),
+        pk(P::Complete { lab: a, len: 300, ext: 0 }),
+        pk(P::First { lab: a, id: 0, len: 30, cut: 10, ext: 0 }),
+        pk(P::First { lab: Lab::Three(ALPHA3[0]), id: 1, len: 30, cut: 10, ext: 0 }),
+        pk(P::First { lab: a, id: 2, len: 30, cut: 10, ext: 1 }),
+        pk(P::First { lab: Lab::ReUse, id: 0, len: 30, cut: 10, ext: 0 }),
+        pk(P::First { lab: a, id: 0, len: 30, cut: 10, ext: 3 }),
+        pk(P::First { lab: a, id: 1, len: 300, cut: 100, ext: 0 }),
+        pk(P::Cont { id: 0, n: 5 }),
+        pk(P::Cont { id: 0, n: 1000 }),
+        pk(P::Cont { id: 1, n: 1000 }),
+        pk(P::End { id: 0, crc_mode: 1, extra: 0 }),
+        pk(P::End { id: 0, crc_mode: 0, extra: 1 }),
+        pk(P::Inter { id: 5, n: 10 }),
+        pk(P::Raw(vec![0xC0])),
+        pk(P::Raw(vec![0xE0, 0x20, 0x08])),
+    ]
+}
+
+fn enum_depth(t: Tier) -> u32 {
+    t.pick(4, 6)
+}
+
+fn enum_size(t: Tier) -> u64 {
+    2 * (1..=enum_depth(t)).map(|k| N_ALPHA.pow(k)).sum::<u64>()
+}
+
+/// two receiver shapes (2 slots: ids 0 and 2 collide; 3 slots), two buffers provisioned, then every
+/// sequence of 1..=depth operations of the alphabet
+fn enum_case(t: Tier, i: u64) -> Case {
+    let alpha = enum_alphabet();
+    let shape = i % 2;
+    let mut i = i / 2;
+    let mut k = 1;
+    while k < enum_depth(t) && i >= N_ALPHA.pow(k) {
+        i -= N_ALPHA.pow(k);
+        k += 1;
+    }
+    let mut ops = vec![Op::Provision(0), Op::Provision(0)];
+    for _ in 0..k {
+        ops.push(alpha[(i % N_ALPHA) as usize].clone());
+        i /= N_ALPHA;
+    }
+    Case { slots: if shape == 0 { 2 } else { 3 }, pdu_size: 40, ops, faults: vec![] }
+}
+
+fn check_enum(i: u64, st: &mut Stats) -> Result<(), String> {
+    check(&enum_case(st.tier, i), st)
+}
+
 pub fn property() -> Property {
     Property {
         id: "C08",
@@ -390,7 +456,15 @@ pub fn property() -> Property {
             "buffer identity = its unique length (the crate cannot resize a Box<[u8]>)",
             "an injected save_frag failure keeps the buffer in a quarantine list that counts as inside the memory (the trait error carries no buffer)",
         ],
-        parts: vec![Box::new(GenPart {
+        parts: vec![Box::new(EnumPart {
+            name: "ledger-all-short-histories",
+            rule: "receivers of 2 and 3 slots with two storages of 41 and 42 bytes, then every sequence of 1..=4 (thorough 1..=6) operations over 24: provision ok / too small, new_pdu, give back, reset, complete packets (valid, re-use, unknown mandatory extension, zero label, too large for any storage), first fragments (ids 0, 1, 2 incl. a slot collision, re-use label, with extension, unknown mandatory, announcing more than any storage), continuation by 5 bytes / to the end on ids 0 and 1, end with wrong CRC, end with wrong length, stray intermediate, 1-byte and truncated buffers. exhaustive for that alphabet and depth; same ledger oracle",
+            size: enum_size,
+            exhaustive: |_| true,
+            check: check_enum,
+            describe: |t, i| serde_json::to_value(enum_case(t, i)).unwrap_or(Value::Null),
+            required_classes: &["delivered", "end-wrong-crc", "end-wrong-length", "unknown-mandatory-ext", "zero-label", "sent-re-use-label", "sent-raw-bytes", "sent-stray-fragment", "error-after-taking-a-buffer"],
+        }), Box::new(GenPart {
             name: "long-trains-huge-storage",
             rule: "first + 10..40 intermediates of 3000..4094 bytes + end into storages of 65000..140000 bytes under the ledger (accumulated length beyond 16 bits): conservation after every call and at the final drain",
             cases: (12_000, 300_000),
